@@ -256,6 +256,16 @@ def run_lists(c):
   feed = {"list": list, "tuple": tuple, "iter": iter, "gen": lambda v: (t for t in v), "stream": Stream}[c.get("feed", "list")]
   co = list(casc(feed(list(x)), zero=ZERO))
   po = list(par(feed(list(x)), zero=ZERO))
+  if parts:
+    # a filter list given one single part that is itself a filter list of the other kind
+    wrapped_c = CascadeFilter(ParallelFilter(*fs()))
+    wrapped_p = ParallelFilter(CascadeFilter(*fs()))
+    if list(wrapped_c(list(x), zero=ZERO)) != sum_m.response(x):
+      raise Violation("CascadeFilter(ParallelFilter(*parts)) is not the sum of the parts: parts=%r x=%r" % (parts, x))
+    if list(wrapped_p(list(x), zero=ZERO)) != prod_m.response(x):
+      raise Violation("ParallelFilter(CascadeFilter(*parts)) is not the product of the parts: parts=%r x=%r" % (parts, x))
+    expect_same(wrapped_c, sum_m, "CascadeFilter(ParallelFilter(*parts)) polynomials")
+    expect_same(wrapped_p, prod_m, "ParallelFilter(CascadeFilter(*parts)) polynomials")
   if c.get("nest") and parts:
     # a parallel bank fed by another filter's output Stream, inside a cascade
     first = mk(parts[0])
@@ -311,6 +321,39 @@ def run_lists(c):
     labels.append("member replaced in place")
   return {"nontrivial": len(parts) >= 2 and all(order(p) >= 1 for p in parts) and len(x) >= 3,
           "labels": labels}
+
+
+# ---------------------------------------------------------------- long filters
+def strat_longf(tier):
+  co = st.fractions(min_value=-3, max_value=3, max_denominator=7)
+  lng = st.lists(co, min_size=34, max_size=44)
+  return st.fixed_dictionaries(dict(fb=lng, gb=lng, fa=st.lists(co, max_size=2), c=st.sampled_from([1, 2, -3])))
+
+
+def run_longf(c):
+  """Products, sums and cascades of filters with dozens of taps are still the exact products / sums of
+  their polynomials (plain Fraction coefficients: a float creeping in is not absorbed)."""
+  fb = [F(v) for v in c["fb"]]
+  gb = [F(v) for v in c["gb"]]
+  if not any(fb):
+    fb[0] = F(1)
+  if not any(gb):
+    gb[0] = F(1)
+  fa = [F(1)] + [F(v) for v in c["fa"]]
+  f = lambda: ZFilter(list(fb), list(fa))
+  g = lambda: ZFilter(list(gb))
+  F_, G_ = RF.lists(fb, fa), RF.lists(gb, [1])
+  for what, real, mod in (("f*g", f() * g(), F_ * G_), ("g*f", g() * f(), F_ * G_), ("f+g", f() + g(), F_ + G_),
+                          ("c*f*g", c["c"] * f() * g(), RF.const(c["c"]) * F_ * G_),
+                          ("cascade", CascadeFilter(f(), g()), F_ * G_),
+                          ("parallel", ParallelFilter(f(), g()), F_ + G_)):
+    got = rf_of(real)
+    if any(isinstance(v, float) for _, v in list(real.numpoly.terms()) + list(real.denpoly.terms())):
+      raise Violation("%s of two long filters with Fraction coefficients has float coefficients" % what)
+    if not got.same(mod):
+      raise Violation("%s of two long filters (%d and %d taps) is not the %s of their polynomials"
+                      % (what, len(fb), len(gb), "product" if "*" in what or what == "cascade" else "sum"))
+  return {"nontrivial": True, "labels": ["recursive f" if len(fa) > 1 else "FIR f"]}
 
 
 # ---------------------------------------------------------------- linearize (fractional delays)
@@ -626,6 +669,8 @@ CLAUSES = [
   Clause("cascade_parallel", strat_lists, run_lists, quick=700, thorough=15000,
          floors={"shared denominator": .1},
          doc="CascadeFilter == product, ParallelFilter == sum: outputs and numpoly/denpoly by cross-multiplication"),
+  Clause("long_filters", strat_longf, run_longf, quick=40, thorough=600,
+         doc="filters with 34..44 taps and Fraction coefficients: product / sum / cascade / parallel polynomials stay exact"),
   Clause("linearize", strat_lin, run_lin, quick=500, thorough=8000,
          floors={"fractional tap lands on an integer term": .1},
          doc="linearize(): fractional delays become the two neighbouring integer taps, additively and independently of term order"),
